@@ -12,7 +12,6 @@ NA = {
  "C13": "two's-complement overflow reporting exactly when outside [MIN,MAX] is a value relation on sign bits and magnitudes",
  "C14": "n=q*d+r with the stated sign conventions for all sign combinations and MIN/-1 is arithmetic; the wrappers' forwarding is decided under C15",
  "C17": "canonical numerals, exact parse and the 2^BITS overflow boundary depend on digit-batching arithmetic and ilog values; the one shape-level clause (push_limb overflow flag is consumed) is decided under C16",
- "C19": "range, uniformity and stream-consumption equality are facts about values drawn from an RNG stream; the random constructors of NonZero/Odd are instances under C12",
  "C20": "floor-sqrt for every x depends on Hast's iteration bound and Newton convergence (numerical)",
 }
 
